@@ -413,9 +413,9 @@ struct Val
 // Two regions of the quantifier ("very large values", "huge boundaries", "integer instruments") on
 // which the library did not give the statement's point.  C07-int64-boundary-rounding is FIXED in
 // /repo (4238e2f; regression replays replays/C07/C07-int64-boundary-rounding*.json) and its shape
-// is generated.  C07-u64-above-int64-max is an OPEN known finding (known_findings.json; fixed
-// witness target u64_wrap_witness): while it is listed as open the generator re-shapes the value
-// and counts how often it walked into it (vh::count_excluded).
+// is generated.  C07-u64-above-int64-max is FIXED in /repo as well (ca8a659: the value is refused with a
+// warning; regression replays replays/C07/C07-u64-above-int64-max*.json); the shape is generated and the
+// model records nothing for it.
 //   C07-int64-boundary-rounding: an int64 value above 2^53 that is not a double and whose double
 //     image rounds DOWN onto a boundary b (b < v): BucketBinarySearch<int64_t> compares in double
 //     and counts v in the bucket "<= b".  Re-shaped into b itself.
@@ -1631,11 +1631,11 @@ VH_TARGET(meter_cycles_abi2, 5,
 #endif
 
 // ================================================================================================
-// Fixed witness of the open known finding C07-u64-above-int64-max (independent of the generators):
+// Fixed case of the finding C07-u64-above-int64-max (repaired in /repo ca8a659; independent of the generators):
 // Histogram<uint64_t>::Record(2^63) through a provider with one cumulative reader and default
 // boundaries.  The value is above every finite boundary, so - if it is counted at all - it belongs
 // to the last bucket, and no recorded value is negative.
-VH_TARGET(u64_wrap_witness, 1, "fixed witness case of known finding C07-u64-above-int64-max (not part of the search)")
+VH_TARGET(u64_wrap_witness, 1, "fixed case of the repaired finding C07-u64-above-int64-max (regression replay, not part of the search)")
 {
   quiet_logs();
   c.nontrivial = true;
